@@ -25,18 +25,23 @@ func (ft *fileTx) t3Func(fd *ast.FuncDecl, fname string) bool {
 	changed := false
 	nGo, nCh := 0, 0
 	// 1. select statements (before their comm clauses are touched by the generic rewrites)
-	astutil.Apply(fd.Body, func(c *astutil.Cursor) bool {
-		sel, ok := c.Node().(*ast.SelectStmt)
-		if !ok {
+	// (a replacement is not walked by Apply, so a select nested in a case of another select is
+	// found by the next pass: repeat until none is left)
+	for again := true; again; {
+		again = false
+		astutil.Apply(fd.Body, func(c *astutil.Cursor) bool {
+			sel, ok := c.Node().(*ast.SelectStmt)
+			if !ok {
+				return true
+			}
+			nCh++
+			site := fmt.Sprintf("%s#select%d", fname, nCh)
+			ft.rep.ChanSites = append(ft.rep.ChanSites, site)
+			c.Replace(ft.rewriteSelect(sel))
+			changed, again = true, true
 			return true
-		}
-		nCh++
-		site := fmt.Sprintf("%s#select%d", fname, nCh)
-		ft.rep.ChanSites = append(ft.rep.ChanSites, site)
-		c.Replace(ft.rewriteSelect(sel))
-		changed = true
-		return true
-	}, nil)
+		}, nil)
+	}
 	// 2. go statements, sends, receives, range over channel, close
 	astutil.Apply(fd.Body, nil, func(c *astutil.Cursor) bool {
 		switch n := c.Node().(type) {
